@@ -206,4 +206,18 @@ def distinctNames : List VMember → Prop
   | [] => True
   | m :: ms => (∀ m', m' ∈ ms → m'.name ≠ m.name) ∧ distinctNames ms
 
+/-- no name is given twice in a braces group, hereditarily (X.680: a ComponentValueList names each component once) -/
+def fieldsOnce (fs : List SField) : Prop := ∀ n v1 v2, SField.mk (some n) v1 ∈ fs → SField.mk (some n) v2 ∈ fs → v1 = v2
+
+mutual
+def wfVal : SVal → Prop
+  | .atom _ => True
+  | .braces fs => fieldsOnce fs ∧ wfFields fs
+  | .choice _ v => wfVal v
+def wfFields : List SField → Prop
+  | [] => True
+  | .mk _ v :: rest => wfVal v ∧ wfFields rest
+end
+
+
 end Link.Values
